@@ -111,6 +111,10 @@ def handleWrap (a mn mx : Rat) (impl : List String) : Verdict :=
       -- the closed interval the property allows: its own key (a recorded finding of the unchanged code)
       let v := v.withSpec (mx < iw && iw ≤ mx + eps) "wrap-above-max"
         s!"wrap({ratApprox a}; {ratApprox mn}, {ratApprox mx}) = {ratApprox iw} is ABOVE max by {ratApprox (iw - mx)}"
+      -- BELOW min is impossible even in f32: the remainder is ≥ 0 and rounding the sum cannot cross the representable
+      -- `min` (`Props.C18.wrap_f32_in_range`, `wrap_f32_bounded`), so no slack at the lower end either
+      let v := v.withSpec (0 < m && iw < mn && mn - eps ≤ iw) "wrap-below-min"
+        s!"wrap({ratApprox a}; {ratApprox mn}, {ratApprox mx}) = {ratApprox iw} is BELOW min by {ratApprox (mn - iw)}"
       let v := v.withSpec (mx ≤ iw && iw ≤ mx + eps && !topByRounding) "wrap-upper-bound-returned"
         s!"wrap({ratApprox a}; {ratApprox mn}, {ratApprox mx}) returned the excluded upper bound {ratApprox iw}; the representative in [min, max) is {ratApprox r}, {ratApprox (mx - r)} below max"
       let tolq := tol / m
